@@ -252,7 +252,7 @@ async fn all_keys_equal(subj: &StorageManager<VDb>, plain: &StorageManager<akd::
     compare_read(&Op::BatchGetVs((0..3).flat_map(|u| (0..8).map(move |e| (u, e))).collect()), subj, plain, what).await
 }
 
-async fn conc_schedule(case: &ConcCase, policy: &crate::sched::Policy, stats: &mut (u64, u64)) -> R<usize> {
+async fn conc_schedule(case: &ConcCase, policy: &crate::sched::Policy, stats: &mut (u64, u64, std::collections::HashSet<u64>)) -> R<usize> {
     use crate::sched::*;
     let vdb = VDb::new();
     let subj = manager(vdb.clone(), case.cache);
@@ -328,6 +328,7 @@ async fn conc_schedule(case: &ConcCase, policy: &crate::sched::Policy, stats: &m
     stats.0 += 1;
     if trace.preemptions > 0 {
         stats.1 += 1;
+        stats.2.insert(fp(&trace.steps));
     }
     let what = format!("after quiescence of schedule {} (actor per step {:?})", show_policy(policy, trace.steps.len()), trace.steps);
     ensure!(!trace.deadlock, "sched-deadlock", "{what}: actors did not finish");
@@ -338,7 +339,7 @@ async fn conc_schedule(case: &ConcCase, policy: &crate::sched::Policy, stats: &m
 
 pub fn conc_check(case: &ConcCase, ctx: &mut Ctx) -> R {
     use crate::sched::*;
-    let mut stats = (0u64, 0u64);
+    let mut stats = (0u64, 0u64, std::collections::HashSet::new());
     let r = block_on_paused(async {
         let t = conc_schedule(case, &Policy::Preempt(vec![]), &mut stats).await? as u32;
         for s in &case.schedules {
@@ -362,8 +363,14 @@ pub fn conc_check(case: &ConcCase, ctx: &mut Ctx) -> R {
     });
     ctx.count("schedules", stats.0);
     ctx.count("schedules_with_preemption", stats.1);
+    if ctx.counting {
+        ctx.evals += stats.0.saturating_sub(1);
+    }
+    let cfp = fp_json(&(&case.cache, &case.setup, case.warm, &case.writer, &case.readers));
+    for t in &stats.2 {
+        ctx.nontrivial(fp(&(cfp, *t)));
+    }
     if stats.1 > 0 {
-        ctx.nontrivial(fp_json(case));
         ctx.sample(&serde_json::json!({"cache": case.cache, "writer": case.writer, "readers": case.readers, "warm": case.warm, "n_random_schedules": case.schedules.len()}));
     }
     r
@@ -408,7 +415,7 @@ pub fn run(eng: &mut Engine) {
     eng.max_shrink = Some(100);
     eng.prop_part(
         "concurrent",
-        "concurrency variant on the deterministic scheduler: one writer actor (plain writes and begin/writes/commit or rollback blocks) and 1-2 reader actors (all read kinds) on one cached manager over a cold or warmed cache, yield points before and after every database operation; non-preemptive, strided single/double preemptions and generated random schedules; oracle: after quiescence every key of the universe read through the manager (single and batched) equals the database; non-trivial = run under a preempting schedule; distinct by case",
+        "concurrency variant on the deterministic scheduler: one writer actor (plain writes and begin/writes/commit or rollback blocks) and 1-2 reader actors (all read kinds) on one cached manager over a cold or warmed cache, yield points before and after every database operation; non-preemptive, strided single/double preemptions and generated random schedules; oracle: after quiescence every key of the universe read through the manager (single and batched) equals the database; evaluations = schedules executed; non-trivial = schedule with at least one preemption, distinct by (scenario, actor-per-step trace)",
         eng.tier.pick(250, 3000),
         || {
             (
